@@ -51,6 +51,10 @@ vkron = F("vkron", Mat, Mat, Mat)             # kron of two vectors (as vector)
 vksum = F("vksum", Mat, Mat, Mat)             # kronecker sum of two vectors: a_i + b_j
 vcat = F("vcat", Mat, Mat, Mat)               # concatenation of vectors
 vrep = F("vrep", Mat, I, Mat)                 # c concatenated copies
+vwhere = F("vwhere", Mat, Mat, Mat, Mat)     # np.where(mask, a, b) entrywise
+vcmp = F("vcmp", I, Mat, Mat, Mat)            # entrywise comparison (op id, lhs, rhs) -> 0/1 mask
+vfull = F("vfull", R, R, I, Mat)              # constant vector
+vmax_re, vmin_re = F("vmax_re", Mat, R), F("vmin_re", Mat, R)
 # scalar valued
 det_re, det_im = F("det_re", Mat, R), F("det_im", Mat, R)
 sgn_re, sgn_im = F("sgn_re", Mat, R), F("sgn_im", Mat, R)      # phase of det
@@ -451,7 +455,7 @@ lemma("fnm_bd", [f, a, b], z3.Implies(z3.And(sq(a), sq(b)), fnm(f, bd(a, b)) == 
 lemma("fnm_rep", [f, a, n], z3.Implies(sq(a), fnm(f, rep(a, n)) == rep(fnm(f, a), n)), [fnm(f, rep(a, n))], ML + "Matrix.exp_blockDiagonal")
 lemma("fnm_tr", [f, a], fnm(f, tr(a)) == tr(fnm(f, a)), [fnm(f, tr(a))], ML + "Matrix.exp_transpose (any primary matrix function)")
 lemma("fnm_cjtr", [f, a], z3.Implies(f_conjsym(f), fnm(f, cj(tr(a))) == cj(tr(fnm(f, a)))), [fnm(f, cj(tr(a)))], ML + "Matrix.exp_conjTranspose (needs f(conj z) = conj f(z))")
-lemma("conjsym_exp", [n], z3.And(f_conjsym(f_exp), f_conjsym(f_log)), [eye(n)], "exp/log commute with conjugation (principal branch, off the cut)")
+GROUND_FACTS = [f_conjsym(f_exp), f_conjsym(f_log)]   # exp/log commute with conjugation (principal branch, off the cut)
 lemma("conjsym_pow", [x], f_conjsym(f_pow(x)), [f_pow(x)], "real powers commute with conjugation (principal branch, off the cut)")
 lemma("fnm_sim", [f, a, b], z3.Implies(z3.And(invok(a), rows(b) == rows(a)),
                                       fnm(f, mmul(a, mmul(diagm(b), minv(a)))) == mmul(a, mmul(diagm(vap(f, b)), minv(a)))),
@@ -463,6 +467,21 @@ lemma("exp_ksum", [a, b], z3.Implies(z3.And(sq(a), sq(b)), fnm(f_exp, ksum(a, b)
       ML + "Matrix.exp_add_of_commute on A(x)I and I(x)B")
 lemma("pow_kron", [x, a, b], z3.Implies(z3.And(psd(a), psd(b)), fnm(f_pow(x), kron(a, b)) == kron(fnm(f_pow(x), a), fnm(f_pow(x), b))),
       [fnm(f_pow(x), kron(a, b))], AS + "(A (x) B)^t = A^t (x) B^t for PSD factors (no branch wrap; Horn & Johnson, Topics, 4.2)")
+def _pw(kk):
+    return f_pow(z3.RealVal(kk))
+
+
+lemma("pow_0", [a], z3.Implies(sq(a), fnm(_pw(0), a) == eye(rows(a))), [fnm(_pw(0), a)], ML + "pow_zero")
+lemma("pow_m1", [a], z3.Implies(invok(a), fnm(_pw(-1), a) == minv(a)), [fnm(_pw(-1), a)], ML + "Matrix.inv = zpow -1")
+for _k in range(1, 11):
+    _t = a
+    for _ in range(_k - 1):
+        _t = mmul(a, _t)
+    lemma(f"pow_{_k}", [a], z3.Implies(sq(a), fnm(_pw(_k), a) == _t), [fnm(_pw(_k), a)], ML + "pow_succ (repeated multiplication)")
+for _k in (-3, -2, -1, 0, 1, 2, 3, 9, 10):
+    _hy = z3.And(sq(a), sq(b)) if _k >= 0 else z3.And(invok(a), invok(b))
+    lemma(f"pow_kron_int_{_k}".replace("-", "m"), [a, b], z3.Implies(_hy, fnm(_pw(_k), kron(a, b)) == kron(fnm(_pw(_k), a), fnm(_pw(_k), b))),
+          [fnm(_pw(_k), kron(a, b))], ML + "Matrix.kronecker pow (mul_kronecker_mul iterated; inv_kronecker for negative exponents)")
 _GROUP[0] = 'pred'
 lemma("psd_bd", [a, b], z3.Implies(z3.And(sq(a), sq(b)), psd(bd(a, b)) == z3.And(psd(a), psd(b))), [psd(bd(a, b))], ML + "Matrix.PosSemidef blockDiagonal / principal submatrix")
 lemma("psd_rep", [a, n], z3.Implies(z3.And(sq(a), n >= 1), psd(rep(a, n)) == psd(a)), [psd(rep(a, n))], ML + "same")
@@ -475,7 +494,35 @@ lemma("vpos_sqrt", [a], z3.Implies(vpos(a), z3.And(vmul(vap(f_pow(HALF), a), vap
       [vap(f_pow(HALF), a)], "sqrt(x)^2 = x, sqrt(x) >= 0 for x >= 0")
 lemma("vpos_real", [a], z3.Implies(vpos(a), cj(a) == a), [vpos(a)], "non-negative reals are real")
 
-DEFAULT_GROUPS = ("dims", "ring", "tr", "inv", "det", "pred", "mixed", "fn")
+# ---------------------------------------------------------------- diagonals and traces
+_GROUP[0] = 'diag'
+lemma("dgk_zero", [a], dgk(a, 0) == dg(a), [dgk(a, 0)], "definition")
+lemma("dg_eye", [n], dg(eye(n)) == ones(n), [dg(eye(n))], ML + "Matrix.diag_one")
+lemma("dgk_eye", [n, k], z3.Implies(k != 0, dgk(eye(n), k) == zeros(n - z3.If(k >= 0, k, -k), 1)), [dgk(eye(n), k)], "off-diagonals of the identity vanish")
+lemma("dg_diagm", [a], dg(diagm(a)) == a, [dg(diagm(a))], ML + "Matrix.diag_diagonal")
+lemma("dgk_diagm", [a, k], z3.Implies(k != 0, dgk(diagm(a), k) == zeros(rows(a) - z3.If(k >= 0, k, -k), 1)), [dgk(diagm(a), k)], "off-diagonals of a diagonal matrix vanish")
+lemma("dg_madd", [a, b], dg(madd(a, b)) == madd(dg(a), dg(b)), [dg(madd(a, b))], ML + "Matrix.diag_add")
+lemma("dgk_madd", [a, b, k], dgk(madd(a, b), k) == madd(dgk(a, k), dgk(b, k)), [dgk(madd(a, b), k)], ML + "Matrix.diag_add (k-th diagonal is linear)")
+lemma("dg_smul", [x, y, a], dg(smul(x, y, a)) == smul(x, y, dg(a)), [dg(smul(x, y, a))], ML + "Matrix.diag_smul")
+lemma("dgk_smul", [x, y, a, k], dgk(smul(x, y, a), k) == smul(x, y, dgk(a, k)), [dgk(smul(x, y, a), k)], ML + "Matrix.diag_smul")
+lemma("dg_bd", [a, b], z3.Implies(z3.And(sq(a), sq(b)), dg(bd(a, b)) == vcat(dg(a), dg(b))), [dg(bd(a, b))], ML + "Matrix.blockDiagonal diag")
+lemma("dg_rep", [a, n], z3.Implies(sq(a), dg(rep(a, n)) == vrep(dg(a), n)), [dg(rep(a, n))], ML + "Matrix.blockDiagonal diag")
+lemma("vrep_1", [a], vrep(a, 1) == a, [vrep(a, 1)], "one copy")
+lemma("vrep_2", [a], vrep(a, 2) == vcat(a, a), [vrep(a, 2)], "two copies")
+lemma("vrep_3", [a], vrep(a, 3) == vcat(a, vcat(a, a)), [vrep(a, 3)], "three copies")
+lemma("vcat_assoc", [a, b, c], vcat(vcat(a, b), c) == vcat(a, vcat(b, c)), [vcat(vcat(a, b), c)], "concatenation is associative")
+lemma("dg_kron", [a, b], z3.Implies(z3.And(sq(a), sq(b)), dg(kron(a, b)) == vkron(dg(a), dg(b))), [dg(kron(a, b))], ML + "Matrix.diag_kronecker (diagonal of a Kronecker product)")
+lemma("dg_ksum", [a, b], z3.Implies(z3.And(sq(a), sq(b)), dg(ksum(a, b)) == vksum(dg(a), dg(b))), [dg(ksum(a, b))], "diagonal of A (x) I + I (x) B")
+lemma("trc_def", [a], z3.And(trc_re(a) == vsum_re(dg(a)), trc_im(a) == vsum_im(dg(a))), [trc_re(a)], ML + "Matrix.trace = sum of diag")
+lemma("trc_def_i", [a], z3.And(trc_re(a) == vsum_re(dg(a)), trc_im(a) == vsum_im(dg(a))), [trc_im(a)], ML + "Matrix.trace = sum of diag")
+_tkx, _tky = cmul(trc_re(a), trc_im(a), trc_re(b), trc_im(b))
+lemma("trc_kron", [a, b], z3.Implies(z3.And(sq(a), sq(b)), z3.And(trc_re(kron(a, b)) == _tkx, trc_im(kron(a, b)) == _tky)), [trc_re(kron(a, b))], ML + "Matrix.trace_kronecker")
+lemma("trc_kron_i", [a, b], z3.Implies(z3.And(sq(a), sq(b)), z3.And(trc_re(kron(a, b)) == _tkx, trc_im(kron(a, b)) == _tky)), [trc_im(kron(a, b))], ML + "Matrix.trace_kronecker")
+lemma("vsum_real", [a], z3.Implies(isreal(a), vsum_im(a) == 0), [vsum_im(a)], "sum of real entries is real")
+lemma("isreal_dg", [a], z3.Implies(isreal(a), isreal(dg(a))), [dg(a)], "diagonal of a real matrix is real")
+lemma("trc_real", [a], z3.Implies(isreal(a), trc_im(a) == 0), [trc_im(a)], "trace of a real matrix is real")
+
+DEFAULT_GROUPS = ("dims", "ring", "tr", "inv", "det", "pred", "mixed", "fn", "diag")
 
 
 def all_axioms(groups=None):
@@ -603,7 +650,7 @@ def prove(hyps, goal, timeout_ms=8000, want_smt=False, groups=None, z3_ms=1500):
     """Returns dict(status in {'unsat','unknown','sat'}, backend, secs).  'unsat' = goal follows from hyps + lemmas.
     z3 in-process (E-matching only) first; its unknowns go to the z3 CLI and cvc5 as separate processes."""
     t0 = time.time()
-    ax = relevant_axioms(list(hyps) + [goal], groups)
+    ax = relevant_axioms(list(hyps) + [goal], groups) + GROUND_FACTS
     s = _solver(z3_ms)
     s.add(*ax)
     s.add(*hyps)
@@ -637,9 +684,34 @@ def prove(hyps, goal, timeout_ms=8000, want_smt=False, groups=None, z3_ms=1500):
     return out
 
 
+ARITH_SYMS = frozenset({"rsqrt"})
+
+
+def _arith_only(fm):
+    return _syms_of(fm, set()) <= ARITH_SYMS
+
+
+def implied_arith(hyps, cond, rlimit=3_000_000):
+    """decide a purely arithmetic condition (dimensions, literals, sqrt) from the arithmetic hypotheses alone, with z3's
+    non-linear arithmetic and no lemma axioms"""
+    hy = [h for h in hyps if _arith_only(h)]
+    for want, fm in ((True, z3.Not(cond)), (False, cond)):
+        s = z3.Solver()
+        s.set("rlimit", rlimit)
+        s.add(*hy)
+        s.add(fm)
+        if s.check() == z3.unsat:
+            return want
+    return None
+
+
 def implied(hyps, cond, timeout_ms=400, groups=None):
     """Three-valued: True if hyps |- cond, False if hyps |- not cond, None otherwise (fast E-matching only)."""
-    ax = relevant_axioms(list(hyps) + [cond], groups)
+    if _arith_only(cond):
+        r = implied_arith(hyps, cond)
+        if r is not None:
+            return r
+    ax = relevant_axioms(list(hyps) + [cond], groups) + GROUND_FACTS
     for want, fm in ((True, z3.Not(cond)), (False, cond)):
         s = _solver(timeout_ms)
         s.add(*ax)
